@@ -54,6 +54,10 @@ pub enum Op {
     /// take every stored handle that points to the selected object out of every
     /// accessible value (same rules as `Remove` for each)
     StripHandlesTo { target: u16, unadopt: bool, keep: bool },
+    /// take stored handles out of one value, from the end, until `leave` remain
+    /// (`owner >= 0x8000`: the accessible object with the most stored handles,
+    /// i.e. the hub; else the object the selected handle points to)
+    ClearSlots { owner: u16, leave: u8, unadopt: bool, keep: bool },
     /// drop all roots of the selected object except one (leads to the
     /// sole-handle states try_unwrap / make_mut / get_mut care about)
     UniqueRoot(u16),
@@ -153,6 +157,7 @@ pub fn op_compact(op: &Op) -> String {
             if *keep { ",keep" } else { "" }
         ),
         Op::StripHandlesTo { target, unadopt, keep } => format!("StripHandlesTo({}{}{})", target, if *unadopt { ",un" } else { "" }, if *keep { ",keep" } else { "" }),
+        Op::ClearSlots { owner, leave, unadopt, keep } => format!("ClearSlots({},leave{}{}{})", owner, leave, if *unadopt { ",un" } else { "" }, if *keep { ",keep" } else { "" }),
         Op::UniqueRoot(h) => format!("UniqueRoot({})", h),
         Op::Downgrade(h) => format!("Downgrade({})", h),
         Op::CloneWeak(w) => format!("CloneW({})", w),
